@@ -315,7 +315,10 @@ class StructureMetaType(MetaType):
     def _read_0(cls, stream: BinaryIO, context: dict[str, Any] | None = None) -> list[Self]:  # type: ignore
         result = []
 
-        while obj := cls._read(stream, context):
+        # The terminator written by _write_0 is the default value, which is not falsy when the structure has
+        # fixed size array members (b"\x00\x00" and [0, 0] are truthy)
+        terminator = cls.__default__()
+        while (obj := cls._read(stream, context)) and obj != terminator:
             result.append(obj)
 
         return result
